@@ -304,6 +304,7 @@ static void snapshot(hctx_t *h, int final)
 	if (complete != all) {
 		if (ON("C10")) { key2(key, sizeof key, "complete-flag-mismatch", h->cname); rep_viol(key, "is_decoding_complete=%d but %u/%u sources available (tab status %d)", complete, navail, k, st); }
 		if (ON("C01") && complete) { key2(key, sizeof key, "complete-with-null", h->cname); rep_viol(key, "complete reported with %u/%u sources available", navail, k); }
+		if (ON("C02") && complete && h->rs) { snprintf(key, sizeof key, "mds-fail:%s", h->cname); rep_viol(key, "decoding reported complete but only %u/%u source symbols were returned (table status %d)", navail, k, st); }
 	}
 	if (h->complete_prev && !complete && ON("C10")) { key2(key, sizeof key, "complete-reverted", h->cname); rep_viol(key, "completion reported earlier and not any more"); }
 	/* C04: streaming availability equals the peeling closure */
